@@ -969,6 +969,42 @@ func (a *effAnalysis) call(common *ssa.CallCommon, pos token.Pos, callInstr *ssa
 		return
 	}
 	callee := a.calleeOf(common)
+	if callee == nil && !common.IsInvoke() {
+		// a call through a variable whose possible targets are a finite set of known functions
+		live := func(phi *ssa.Phi, i int) bool {
+			pred := phi.Block().Preds[i]
+			if a.reach != nil && !a.reach[pred] {
+				return false
+			}
+			if iff, ok := pred.Instrs[len(pred.Instrs)-1].(*ssa.If); ok && pred.Succs[0] != pred.Succs[1] {
+				if cv := a.evalConst(iff.Cond); cv != nil && cv.Kind() == constant.Bool {
+					want := pred.Succs[1]
+					if constant.BoolVal(cv) {
+						want = pred.Succs[0]
+					}
+					return want == phi.Block()
+				}
+			}
+			return true
+		}
+		if targets := funcTargetsLive(a.e.c, common.Value, live, 0); len(targets) > 0 {
+			all := true
+			for _, t := range targets {
+				if !a.isLib(t) {
+					all = false
+				}
+			}
+			if all {
+				for _, t := range targets {
+					if _, ok := a.res.Calls[fname(t)]; !ok {
+						a.res.Calls[fname(t)] = pos
+					}
+					a.merge(a.e.With(t, nil), common.Args)
+				}
+				return
+			}
+		}
+	}
 	if callee == nil {
 		desc := "dynamic call"
 		if common.IsInvoke() {
